@@ -46,7 +46,7 @@ def gen_series(rnd, nmin=4, nmax=9):
     return xs, ys
 
 
-OPS = ["append_one_sample", "shift_x", "shift_y", "scale_x", "scale_y", "repeat", "truncate_by_index", "normalize_x",
+OPS = ["append_one_sample", "shift_x", "shift_y", "scale_x", "scale_y", "repeat", "truncate_by_index", "truncate_by_value", "normalize_x",
        "normalize_y", "recreate_from_average", "interpolate", "restore_original", "trend", "to_function", "to_function"]
 
 
@@ -55,6 +55,13 @@ def gen_weaver(rnd, max_ops=3):
     recipe = dict(x=xs, y=ys, ops=[], xkind=rnd.choice(["nd", "nd", "list"]), ykind=rnd.choice(["nd", "nd", "list"]))
     if rnd.random() < 0.1:
         recipe["x"] = None
+    elif rnd.random() < 0.12:
+        # integer time axes (int32 / int64 only: narrower dtypes wrap around inside NumPy on the unchanged tree as well, which is
+        # machine arithmetic, outside what the properties - and the A-real model - speak about)
+        scale = rnd.choice([1, 5, 10, 15])
+        recipe["x"] = [int(round(2 * v)) * scale for v in xs]
+        recipe["xkind"] = "nd"
+        recipe["xdtype"] = rnd.choice(["int32", "int64"])
     d = {"__history__": recipe}
     w = build(d)
     for _ in range(rnd.randint(0, max_ops)):
@@ -74,6 +81,13 @@ def gen_weaver(rnd, max_ops=3):
             kw = dict(start=rnd.randint(0, 1), stop=len(w) - rnd.randint(0, 1))
             if len(w.get_reference()[0]) != len(w):
                 continue
+        elif op == "truncate_by_value":
+            # bounds that are not samples: after oversampling the working series keeps another range than the reference
+            xw = np.asarray(w.get()[0], dtype=float)
+            if len(xw) < 6:
+                continue
+            span = float(xw[-1] - xw[0])
+            kw = dict(x_left=float(xw[0]) + span * rnd.choice([0.0, 0.1, 0.23, 0.3]), x_right=float(xw[-1]) - span * rnd.choice([0.0, 0.1, 0.17, 0.3]))
         elif op in ("normalize_x", "normalize_y"):
             kw = dict(min_val=float(rnd.randint(-2, 0)), max_val=float(rnd.randint(1, 3)))
         elif op == "recreate_from_average":
